@@ -75,7 +75,11 @@ func C15(c *Ctx) {
 	c.Outside = append(c.Outside, "longer histories than three parses (no inductive reset step registered)", "real thread-level concurrency (only sequential interleaving of whole parses on distinct contexts)", "TypeScript variant")
 	c.Harnesses = append(c.Harnesses, "generated zz_verif_spec.go:VerifHistory")
 	small := func(name string) bool {
-		return c.Thorough() || (name != "stmts12" && name != "len10" && name != "prec_mixed" && name != "redecl" && !strings.HasPrefix(name, "rich_"))
+		if c.Thorough() {
+			// the two grammars with the most viable prefixes square the path count at 3+3 tokens
+			return name != "stmts12" && name != "len10"
+		}
+		return (name != "stmts12" && name != "len10" && name != "prec_mixed" && name != "redecl" && !strings.HasPrefix(name, "rich_"))
 	}
 	runGenEntry(c, "C15", "VerifHistory", []int{nx, ny}, GoVariants, []string{"after-accept", "after-reject"}, small)
 	c.Bound("interleaving: a complete parse of y on a second context inside the k-th reduction (k symbolic) of a parse of x; object-mode variants")
